@@ -317,6 +317,21 @@ class CFG(object):
                     out.append((t, lab))
         return out
 
+    def control_deps_transitive(self, nid, within=None):
+        """Transitive closure of control_deps (tests controlling the controlling tests...), optionally restricted
+        to branch nodes in the node-id set `within`."""
+        seen = {}
+        work = [nid]
+        while work:
+            x = work.pop()
+            for t, lab in self.control_deps(x):
+                if within is not None and t.id not in within:
+                    continue
+                if t.id not in seen:
+                    seen[t.id] = (t, lab)
+                    work.append(t.id)
+        return list(seen.values())
+
     def _reaching_to(self, nid):
         seen = set()
         stack = [nid]
